@@ -1498,6 +1498,10 @@ func main() {
 		f()
 		spent[place] += time.Since(t0)
 	}
+	// one P for this phase: a hand-over between two goroutines is then a switch
+	// on the same thread instead of a futex wake-up of another one (which costs
+	// milliseconds on a busy machine); nothing here runs in parallel anyway
+	procs := runtime.GOMAXPROCS(1)
 	for i := 0; i < nPlace; i++ {
 		if !mon.Mine(i) {
 			continue
@@ -1508,6 +1512,8 @@ func main() {
 		timed("agg", func() { ap.run(i) })
 		timed("aggregate-routing", func() { arp.run(i) })
 	}
+
+	runtime.GOMAXPROCS(procs)
 
 	// place 1 touches no global counter: a few workers per shard (all shards together about one per core)
 	_, nshards := mon.Shard()
